@@ -13,9 +13,26 @@ impl Clone for AssetInfoRaw { #[verifier::external_body] fn clone(&self) -> (r: 
 impl Clone for CreatePairRequirements { #[verifier::external_body] fn clone(&self) -> (r: CreatePairRequirements) ensures r == *self { unimplemented!() } }
 impl Clone for PairInfoRaw { #[verifier::external_body] fn clone(&self) -> (r: PairInfoRaw) ensures r == *self { unimplemented!() } }
 impl AssetInfo {
-    // the text an asset is displayed as (impl Display in asset.rs: denom / contract address) -- ASSUMED (write! is out of reach)
+    // the text an asset is displayed as: the denom / the contract address, whole and unchanged (route-shape keys in the router are these texts)
     pub open spec fn label(&self) -> Seq<char> { match self { AssetInfo::Token { contract_addr } => contract_addr@, AssetInfo::NativeToken { denom } => denom@ } }
-    #[verifier::external_body] pub fn to_string(&self) -> (r: String) ensures r@ == self.label() { unimplemented!() }
+//%fn packages/haloswap/src/asset.rs | impl fmt::Display for AssetInfo | fmt
+//%%rewrite #2 /write!\(f, ("[^"]*"), (\w+)\)/ => f.write_display(\1, \2) ## write!(f, SPEC, x) with one String argument -> Formatter::write_display(SPEC, x): only the plain spec "{}" is modelled (writes x), the spec text is carried over verbatim
+//%%rewrite #1 /fn fmt\(/ => pub fn fmt( ## the Display impl is lifted to an inherent method (Formatter is a shim type)
+//%%sig
+    ensures
+//%if A
+        r is Ok,
+//%endif
+        /*[C13 asset.display]*/ r is Ok ==> final(f).out@ == old(f).out@ + self.label(),
+//%end
+    // stands for std's blanket ToString impl over the Display impl above (VERIFIED against fmt's contract)
+    pub fn to_string(&self) -> (r: String)
+        ensures /*[C13 asset.to-string]*/ r@ == self.label()
+    {
+        let mut f = fmt::Formatter::new_buffer();
+        let res = self.fmt(&mut f);
+        f.finish(res)
+    }
     pub open spec fn same(&self, o: &AssetInfo) -> bool {
         match (self, o) {
             (AssetInfo::Token { contract_addr: a }, AssetInfo::Token { contract_addr: b }) => a@ == b@,
